@@ -25,7 +25,7 @@ const (
 	KBulk         = "bulk"
 	KImport       = "import"
 	KExport       = "export"
-	KRaw          = "raw" // raw request (transport-fault profiles)
+	KRaw          = "raw"   // raw request (transport-fault profiles)
 	KSleep        = "sleep" // the client waits (simulated time)
 )
 
@@ -84,8 +84,8 @@ type Op struct {
 	DryRun        bool   `json:"dry_run,omitempty"`
 	SchemaVersion string `json:"schema_version,omitempty"`
 
-	Schema json.RawMessage `json:"schema,omitempty"`
-	Bucket string          `json:"bucket,omitempty"`
+	Schema json.RawMessage   `json:"schema,omitempty"`
+	Bucket string            `json:"bucket,omitempty"`
 	Feats  map[string]string `json:"features,omitempty"`
 
 	Elements          []Op   `json:"elements,omitempty"`
@@ -98,15 +98,15 @@ type Op struct {
 	// generator can know it (elements kept on accounts no other client touches)
 	Expect string `json:"expect,omitempty"`
 
-	From       string `json:"from,omitempty"`        // import: source ledger whose export is fed in
-	ImportFrom int    `json:"import_from,omitempty"` // import only logs with id >= this
-	ImportTo   int    `json:"import_to,omitempty"`   // import only logs with id <= this
-	Remainder  bool   `json:"remainder,omitempty"`   // import the logs the destination does not have yet
-	Raw     *Request `json:"raw,omitempty"`
-	Capture string   `json:"capture,omitempty"` // raw admin requests: remember data.id under this name ("reset": mark a reset)
-	SleepMs int      `json:"sleep_ms,omitempty"`
-	Keep    bool     `json:"keep,omitempty"` // never removed by the minimiser (later ops depend on its answer)
-	Chunked int      `json:"chunked,omitempty"`
+	From       string   `json:"from,omitempty"`        // import: source ledger whose export is fed in
+	ImportFrom int      `json:"import_from,omitempty"` // import only logs with id >= this
+	ImportTo   int      `json:"import_to,omitempty"`   // import only logs with id <= this
+	Remainder  bool     `json:"remainder,omitempty"`   // import the logs the destination does not have yet
+	Raw        *Request `json:"raw,omitempty"`
+	Capture    string   `json:"capture,omitempty"` // raw admin requests: remember data.id under this name ("reset": mark a reset)
+	SleepMs    int      `json:"sleep_ms,omitempty"`
+	Keep       bool     `json:"keep,omitempty"` // never removed by the minimiser (later ops depend on its answer)
+	Chunked    int      `json:"chunked,omitempty"`
 }
 
 func (o *Op) sig() string {
